@@ -91,8 +91,13 @@ CHECKS.update({
               "Decides: the country tables are one bijection with the data files; the embedded public and school databases (the byte constants the compiler baked into the lazy initialisers for the current tree) decode to exactly the dates of the data files, region by region with nothing left over (113517 + 988 dates, exhaustive); each decoded calendar is keyed by parsing its own region code; codec, public/school pairing and build-script table are consistent; reader and writer agree (C15.R1/R2). Does not decide flate2's inflate nor CompactCalendar::contains for every date beyond the structural rules of C15.",
               "DESIGN.md section 3, C10", _TB + "The artefact is produced by the build script during the analysing `cargo check`; the check decodes it with zlib and its own reader of the format."),
 })
+CHECKS.update({
+    "C06": _c("mirfacts+grammardump", "symbolic interpretation of every Display body's MIR into path conditions + output templates; model finding over finite candidate sets (predicate abstraction with the printer's own comparison constants and the grammar's token ranges); PEG matcher on the grammar with token alignment; injectivity of the extracted printer on the explored values; reads() completeness; token tables",
+              "Decides: every output shape of every Display impl of the syntax tree (all MIR paths; lists of length 0, 1, >=2; all 32x32 nth tables in the thorough tier) is a sentence of the grammar rule the builder turns into that node type, up to whole rule sequences and two-rule expressions from the start rule, with each printed child read back by a token of its own rule; no two explored values that differ print the same text (nothing is silently dropped or half compared); every field is read by its printer; printed tokens are the grammar's tokens of the same variant; Python str/repr print that text. Found and fixed: PH offsets, event offsets, Y-Y/n, missing `/` before repeats, and a lone year merging into the first date (`2020Jan 5,Feb 3`). Does not decide that the re-parsed tree evaluates identically, values outside the representative classes, lists beyond two elements.",
+              "DESIGN.md section 3, C06", _TB + "Shapes no parse can produce are excluded through five feasibility rows, each tied to a grammar fact re-checked on every run. Trusted: the PEG matcher and symbolic printer of this repository (unmodelled constructs fail closed)."),
+})
 ENGINES[0]["serves_properties"] = sorted(CHECKS.keys())
-ENGINES.append({"name": "grammardump", "path": "engines/grammardump", "serves_properties": ["C04", "C05"], "kind_free_text": "pest_meta front end dumping grammar.pest as JSON; consumed by rules/peg.py (child-sequence DFAs, PEG matcher)"})
+ENGINES.append({"name": "grammardump", "path": "engines/grammardump", "serves_properties": ["C04", "C05", "C06"], "kind_free_text": "pest_meta front end dumping grammar.pest as JSON; consumed by rules/peg.py (child-sequence DFAs, PEG matcher)"})
 
 NOT_APPLICABLE = {
     "C16": "Every sentence compares durations measured at run time from two reference points of a stateful iterator; no clause whose truth is visible in the shape of the code could be separated without either inter-call path-sensitive taint over iterator state or freezing a source fragment (DESIGN.md section 4).",
